@@ -20,7 +20,7 @@ ANCHORS = ['FactoredInference.estimate', 'FactoredInference.mirror_descent', 'Fa
            'FactoredInference.interior_gradient', 'GraphicalModel.project', 'GraphicalModel.datavector', 'GraphicalModel.mle',
            'GraphicalModel.belief_propagation']
 DECIDING = ['stored_vs_reinferred', 'answer_valid', 'answers_agree']
-ASSUMPTIONS = ['(a) 1e-7*total, (b) sums rtol 1e-9 and negatives >= -1e-12*total, (c) 1e-7*total',
+ASSUMPTIONS = ['(a) 1e-7*total, (b) sums rtol min(1e-6, max(1e-9, 256*eps*max|parameter|)) and negatives >= -1e-12*total, (c) 1e-7*total',
                'RDA / IG are driven with projections of >= 2 cells and not with all-zero query matrices (scipy eigsh refuses a 1x1 operator and a zero operator); MD gets both']
 PLAN = {
     'quick': dict(cases=240, budget_s=75, case_timeout=300, min_cases=60),
@@ -96,6 +96,7 @@ def judge_model(ctx, model, attrs, shape, what=''):
     total = float(model.total)
     mx = estim.max_abs_potential(model)
     info = dict(max_abs_potential=mx)
+    sum_rtol = min(1e-6, max(1e-9, 256 * np.finfo(float).eps * (mx if np.isfinite(mx) else 1e308)))
     ctx.stat('max_abs_potential', mx if np.isfinite(mx) else 1e308)
     with np.errstate(all='ignore'):
         # (a) stored marginals are the marginals of the stored parameters
@@ -131,7 +132,7 @@ def judge_model(ctx, model, attrs, shape, what=''):
                 bad = 'non-finite'
             elif (v < -1e-12 * total).any():
                 bad = 'negative entry %r' % float(v.min())
-            elif abs(float(v.sum()) - total) > 1e-9 * total:
+            elif abs(float(v.sum()) - total) > sum_rtol * total:
                 bad = 'sums to %r, model total %r' % (float(v.sum()), total)
             ctx.check(bad is None, 'answer_valid', 'invalid_answer', lambda: '%s%s: %s' % (what, name, bad), **info)
             if bad is None and full_ok and name != 'datavector':
